@@ -778,10 +778,28 @@ def main():
                 fails.append({"clause": "C13:project-differs", "key": f"C13/night/{SEED}/{k}", "detail": f"extensions on {a} vs off {b}"[:300], "input": text})
     elif prop == "C14":
         for k, p in enumerate(gen_projects(rng, n // 2)):
-            base = dates(run(render(p)))
+            # one task gets a pinned start, the project a global vacation day: both move with the project
+            pin_days, vac_days = rng.choice([None, 1, 2, 8]), rng.choice([None, 1, 3])
+
+            def with_dates(pp):
+                t_ = render(pp)
+                if pin_days is not None:
+                    d_ = (pp["start"] + dt.timedelta(days=pin_days)).strftime("%Y-%m-%d")
+                    ls_ = t_.split("\n")
+                    for li_, ln_ in enumerate(ls_):
+                        if ln_.startswith("task t0 "):
+                            ls_[li_] = ln_.replace(" }", f" start {d_} }}", 1) if ln_.count(" }") == 1 else ln_[:-2] + f" start {d_} }}"
+                            break
+                    t_ = "\n".join(ls_)
+                if vac_days is not None:
+                    v0 = (pp["start"] + dt.timedelta(days=vac_days)).strftime("%Y-%m-%d")
+                    v1 = (pp["start"] + dt.timedelta(days=vac_days + 1)).strftime("%Y-%m-%d")
+                    t_ = t_.replace("\nresource ", f'\nvacation "hol" {v0} - {v1}\nresource ', 1)
+                return t_
+            base = dates(run(with_dates(p)))
             w = rng.choice([1, 4, 51, 52, 53, 104, 157])
             q = dict(p, start=p["start"] + dt.timedelta(weeks=w))
-            text = render(q)
+            text = with_dates(q)
             sh = dates(run(text))
             evals += 1
             record(k, text)
